@@ -1816,24 +1816,31 @@ class InventoryTreeTransform(DiskTreeTransform):
             else:
                 inventory_delta = precomputed_delta
                 offset = 0
+            from bzrformats.inventory_delta import InventoryDelta
+
+            if self.final_file_id(self.root) is None:
+                inventory_delta = [e for e in inventory_delta if e[0] != ""]
+            if not isinstance(inventory_delta, InventoryDelta):
+                inventory_delta = InventoryDelta(list(inventory_delta))
             mover = _FileMover() if _mover is None else _mover
+            limbo_files = dict(self._limbo_files)
             try:
                 child_pb.update(gettext("Apply phase"), 0 + offset, 2 + offset)
                 self._apply_removals(mover)
                 child_pb.update(gettext("Apply phase"), 1 + offset, 2 + offset)
                 modified_paths = self._apply_insertions(mover)
+                # Update the inventory while the file moves can still be
+                # rolled back, and before the replaced content is discarded:
+                # a failure in apply_deletions() must not leave the old
+                # inventory describing the new layout.
+                self._tree.apply_inventory_delta(inventory_delta)
             except BaseException:
                 mover.rollback()
+                # the new content is back in limbo: let finalize() remove it
+                self._limbo_files = limbo_files
                 raise
             else:
                 mover.apply_deletions()
-        from bzrformats.inventory_delta import InventoryDelta
-
-        if self.final_file_id(self.root) is None:
-            inventory_delta = [e for e in inventory_delta if e[0] != ""]
-        if not isinstance(inventory_delta, InventoryDelta):
-            inventory_delta = InventoryDelta(list(inventory_delta))
-        self._tree.apply_inventory_delta(inventory_delta)
         self._apply_observed_sha1s()
         self._done = True
         self.finalize()
